@@ -242,8 +242,11 @@ class Gen:
             elif x < 50:
                 st = self.pick(SETTERS)
                 self.emit('set %d %s %s' % (a, st, self.arg(self.setval(st))))
-            elif x < 60:
+            elif x < 55:
                 self.emit('parse %d %s %s' % (a, self.arg(self.url_text()), self.base_arg((b,))))
+            elif x < 60:
+                # relative reference against the other object (use as base)
+                self.emit('parse %d %s s%d' % (a, self.arg(self.pick(RELS)), b))
             elif x < 85:
                 self.emit(self.sp_op(a))
             elif x < 90:
